@@ -17,7 +17,7 @@ CLAIMED = {
         design="4/C08"),
     "C09": dict(
         technique="MIR path-sensitive guard analysis: role fact about info.sender on every success path of each privileged execute arm (DNF over callee success paths), variant classification, role-slot writer census",
-        note="Decided: R09.1 every success path of the 23 privileged arms establishes the tabled role (Admin item check / Config field equality / tabled disjunction) about info.sender; R09.2 all 29 ExecuteMsg variants classified, unclassified fails closed; R09.3 Admin items and Config are written only by instantiate and the role-transfer arm; R09.4 instantiate never places the deployer (info.sender) in a role field of Config other than the owner's, so a former owner holds no role after UpdateOwner (added after seed C09g). Not decided: cw-controllers internals (trusted).",
+        note="Decided: R09.1 every success path of the 23 privileged arms establishes the tabled role (Admin item check / Config field equality / tabled disjunction) about info.sender; R09.2 all 29 ExecuteMsg variants classified, unclassified fails closed; R09.3 Admin items and Config are written only by instantiate and the role-transfer arm; R09.4 instantiate never places the deployer (info.sender) in a role field of Config other than the owner's, so a former owner holds no role after UpdateOwner (added after seed C09g); R09.5 the pause flag is written only by SetPause: every other store of State keeps the loaded flag (seed C09h). Not decided: cw-controllers internals (trusted).",
         design="4/C09"),
     "C16": dict(
         technique="MIR path-sensitive guard analysis and stored-value flow: restriction guard shape on Open/Close, marker/stamp writes in the liquidation and trade replies, marker preservation by every vAMM-map writer",
@@ -37,7 +37,7 @@ CLAIMED = {
         design="4/C03"),
     "C17": dict(
         technique="MIR sibling agreement between query and execute arms (same pricing callee, same operand origins), reserve-writer argument flow, limit-comparison table on success/reject paths, cross-contract limit forwarding",
-        note="Decided: R17.1 InputAmount/OutputAmount and SwapInput/SwapOutput call the same pricing function on (msg.direction, msg amount, State reserves) and use the result unchanged; R17.2 reserve writer gets requested amount unchanged, priced amount on the other side, direction unchanged/flipped; R17.3 limit table (receive: >= limit, owe: <= limit, zero: untested, rejection only on strict violation; a zero-amount swap cannot satisfy a non-zero receive-side limit - found F20, fixed); R17.5 engine forwards the caller's limit unchanged on increase, reduce, whole close, full liquidation, and the limit-dropping reversal branch is only reachable with position.size != 0 established (found F13, fixed). Not decided: the pricing arithmetic (C01).",
+        note="Decided: R17.1 InputAmount/OutputAmount and SwapInput/SwapOutput call the same pricing function on (msg.direction, msg amount, State reserves) and use the result unchanged; R17.2 reserve writer gets requested amount unchanged, priced amount on the other side, direction unchanged/flipped; R17.3 limit table (receive: >= limit, owe: <= limit, zero: untested, rejection only on strict violation; a zero-amount swap cannot satisfy a non-zero receive-side limit - found F20, fixed); R17.5 engine forwards the caller's limit unchanged on increase, reduce, whole close, full liquidation, and the limit-dropping reversal branch is only reachable with position.size != 0 established (found F13, fixed); R17.6 the reduce-vs-reverse decision that selects the limit-carrying swap compares the position's spot notional with the order (shared with R02.4; seed C17j); R17.7 every success path of SwapInput/SwapOutput stores the vAMM State unconditionally (seed C17k). Not decided: the pricing arithmetic (C01).",
         design="4/C17"),
     "C20": dict(
         technique="MIR stored-value flow + guard facts: each stored Config field that can differ from the loaded one is matched with a validation fact about that same operand; cap comparisons matched with the value actually written",
@@ -53,7 +53,7 @@ CLAIMED = {
         design="4/C11"),
     "C04": dict(
         technique="MIR guard facts, expression-tree pattern matching of the payout and margin-delta formulas, sibling agreement close/liquidation, &mut State effect tracking for the prepaid-bad-debt accounting",
-        note="Decided: R04.1 close/partial-close replies succeed only with bad_debt==0 of their remain-margin result; R04.2 close reply removes the position; R04.3 margin_delta = output - open_notional (long) / reverse (short), payout = |remain_margin.margin + tmp.unrealized_pnl| to tmp.trader, whole-close record carries unrealized_pnl=0 and open_notional=position.notional; R04.4 liquidation uses the same margin_delta table; R04.5 an insurance Withdraw for a shortfall is added to prepaid_bad_debt with the same operand and mutated State is stored; R04.6 funding charged once (margin/checkpoint pairing); R04.7 every transfer of the magnitude |X| of a signed quantity is preceded by a sign test of X on its path (found F14: the reversal's pure-close branch paid out bad debt; fixed); R04.8 the vault balance that sizes insurance draws is the engine's own balance of the collateral token (balance query asks for (token, account) as given in both arms; every engine call site passes config.eligible_collateral and env.contract.address); R04.9 open-notional bookkeeping (increase stores loaded notional + record.open_notional; the record holds the quote amount the SwapInput asks for). Not decided: numeric exactness beyond formula identity; balances; the reducing branch's notional formula.",
+        note="Decided: R04.1 close/partial-close replies succeed only with bad_debt==0 of their remain-margin result; R04.2 close reply removes the position; R04.3 margin_delta = output - open_notional (long) / reverse (short), payout = |remain_margin.margin + tmp.unrealized_pnl| to tmp.trader, whole-close record carries unrealized_pnl=0 and open_notional=position.notional; R04.4 liquidation uses the same margin_delta table; R04.5 an insurance Withdraw for a shortfall is added to prepaid_bad_debt with the same operand and mutated State is stored; R04.6 funding charged once (margin/checkpoint pairing); R04.7 every transfer of the magnitude |X| of a signed quantity is preceded by a sign test of X on its path (found F14: the reversal's pure-close branch paid out bad debt; fixed); R04.8 the vault balance that sizes insurance draws is the engine's own balance of the collateral token (balance query asks for (token, account) as given in both arms; every engine call site passes config.eligible_collateral and env.contract.address); R04.9 open-notional bookkeeping (increase stores loaded notional + record.open_notional; the record holds the quote amount the SwapInput asks for); R04.10 both close replies settle on the stored record loaded under the in-flight key, not a locally adjusted copy (seed C04h). Not decided: numeric exactness beyond formula identity; balances; the reducing branch's notional formula.",
         design="4/C04"),
     "C12": dict(
         technique="MIR path census of fee-transfer invocations per chain step keyed by the fees_paid / zero-base conditions, constant propagation of the flag through the in-flight record, operand-origin and formula matching for fee base, routing and CalcFee",
@@ -61,15 +61,15 @@ CLAIMED = {
         design="4/C12"),
     "C05": dict(
         technique="MIR guard facts with formula matching of the compared operands, event ordering on success paths (store before margin-ratio query), stored-value and transfer-amount flow",
-        note="Decided: R05.1 leverage >= decimals and decimals^2/leverage >= config.initial_margin_ratio on every OpenPosition success path; R05.2 every Open chain ending with a live stored position queries that position's margin ratio after the store and establishes it >= config.maintenance_margin_ratio; R05.3 WithdrawMargin: bad-debt guard, signed (free collateral - amount) >= 0 guard for (msg.vamm, info.sender), payout exactly msg.amount to info.sender, stored margin = remain_margin(position, -amount).margin; R05.4 DepositMargin stores margin + msg.amount and collects exactly msg.amount in both collateral arms (the native attached-funds assertion is an equality). R05.5 free collateral = min(margin, margin + pnl) - requirement notional * config.initial_margin_ratio / decimals (margin alone iff pnl > 0; open notional of a long, current notional of a short); R05.6 the position it is computed on carries margin = max(0, stored margin - (latest cumulative fraction - checkpoint) * size / decimals); R05.7 the increase reply credits and collects record.open_notional * decimals / record.leverage, the record holds msg.leverage and msg.margin_amount * msg.leverage / decimals. Not decided: correctness of the margin-ratio / free-collateral formulas beyond operand selection (R06.3).",
+        note="Decided: R05.1 leverage >= decimals and decimals^2/leverage >= config.initial_margin_ratio on every OpenPosition success path; R05.2 every Open chain ending with a live stored position queries that position's margin ratio after the store and establishes it >= config.maintenance_margin_ratio; R05.3 WithdrawMargin: bad-debt guard, signed (free collateral - amount) >= 0 guard for (msg.vamm, info.sender), payout exactly msg.amount to info.sender, stored margin = remain_margin(position, -amount).margin; R05.4 DepositMargin stores margin + msg.amount and collects exactly msg.amount in both collateral arms (the native attached-funds assertion is an equality). R05.5 free collateral = min(margin, margin + pnl) - requirement notional * config.initial_margin_ratio / decimals (margin alone iff pnl > 0; open notional of a long, current notional of a short); R05.6 the position it is computed on carries margin = max(0, stored margin - (latest cumulative fraction - checkpoint) * size / decimals); R05.7 the increase reply credits and collects record.open_notional * decimals / record.leverage, the record holds msg.leverage and msg.margin_amount * msg.leverage / decimals; R05.8 every reply path that stores a position advances its funding checkpoint to the latest cumulative fraction whatever the size (seed C05h). Not decided: correctness of the margin-ratio / free-collateral formulas beyond operand selection (R06.3).",
         design="4/C05"),
     "C06": dict(
         technique="MIR guard facts and expression-tree pattern matching: liquidation guard and ratio selection, spot/TWAP selection sibling agreement, spread-limit tree, fee and partial-amount trees, receiver classes",
-        note="Decided: R06.1 selected ratio <= maintenance on every Liquidate success path; R06.2 oracle ratio selected iff over-spread and (oracle - base) > 0, else the base ratio of (msg.vamm, msg.trader); R06.3 TWAP figures iff |spot pnl| > |twap pnl| in MarginRatio and FreeCollateral; R06.4 |((quote*D/base - oracle)*D)/oracle| >= D/10; R06.5 liquidator fee (output*fee/D)/2, only liquidator and insurance fund receive, the insurance fund exactly remain_margin - fee, position removed; R06.6 partial swap amount size*ratio/D, equal penalty halves; R06.7 both margin-ratio functions return ((remain_margin.margin - remain_margin.bad_debt)*D)/notional with remain_margin charged with the pnl of the same figures (funding included); R06.8 valuation per calc option: Twap -> vAMM OutputTwap, SpotPrice -> OutputAmount of (position.direction, |size|) at position.vamm, Oracle -> UnderlyingPrice*|size|/decimals, pnl signed by the position's direction. Not decided: numeric outcome; overshoot of a partial liquidation (C02 sign table).",
+        note="Decided: R06.1 selected ratio <= maintenance on every Liquidate success path; R06.2 oracle ratio selected iff over-spread and (oracle - base) > 0, else the base ratio of (msg.vamm, msg.trader); R06.3 TWAP figures iff |spot pnl| > |twap pnl| in MarginRatio and FreeCollateral; R06.4 |((quote*D/base - oracle)*D)/oracle| >= D/10; R06.5 liquidator fee (output*fee/D)/2, only liquidator and insurance fund receive, the insurance fund exactly remain_margin - fee, position removed; R06.6 partial swap amount size*ratio/D, equal penalty halves; R06.7 both margin-ratio functions return ((remain_margin.margin - remain_margin.bad_debt)*D)/notional with remain_margin charged with the pnl of the same figures (funding included) and applied to the stored record, not a funding-netted copy (seed C06k); R06.8 valuation per calc option: Twap -> vAMM OutputTwap, SpotPrice -> OutputAmount of (position.direction, |size|) at position.vamm, Oracle -> UnderlyingPrice*|size|/decimals, pnl signed by the position's direction. Not decided: numeric outcome; overshoot of a partial liquidation (C02 sign table).",
         design="4/C06"),
     "C13": dict(
         technique="MIR sibling-arm agreement on every branch over the collateral kind: transfer constructors compared by (receiver, amount), native required-funds increments compared as a multiset with the amounts the cw20 arm pulls from the trader on the path with the same other conditions",
-        note="Decided (the structural clause the 2-run relation rests on): R13.1 native and cw20 arms of every transfer constructor build the same (receiver, amount); R13.1b in the Open replies the native arm raises SentFunds.required by exactly what the cw20 arm pulls from the trader; R13.2 native terminal paths pass the exact-match check, the check accepts equality only, SentFunds is created only by OpenPosition with required=0; R13.3 every cw20 pull a chain step can emit is from the caller of the transaction (the premise only lets a native call mirror pulls from the caller); R13.1 is evaluated on the value each constructor returns, at every call site where the cw20 message is a parameter, with coverage asserted per (contract, transfer kind); R13.4 arms whose chain pulls from the caller never condition success on the attached coins beyond the collateral-coin lookup; R13.5 no reply of a chain whose attached native coins are untracked sizes an insurance top-up from the engine balance (known finding F10: whole-close reply). Not decided: equality of the two runs' outcomes as such; allowance/balance failure modes.",
+        note="Decided (the structural clause the 2-run relation rests on): R13.1 native and cw20 arms of every transfer constructor build the same (receiver, amount); R13.1b in the Open replies the native arm raises SentFunds.required by exactly what the cw20 arm pulls from the trader; R13.2 native terminal paths pass the exact-match check, the check accepts equality only, SentFunds is created only by OpenPosition with required=0; R13.3 every cw20 pull a chain step can emit is from the caller of the transaction (the premise only lets a native call mirror pulls from the caller); R13.1 is evaluated on the value each constructor returns, at every call site where the cw20 message is a parameter, with coverage asserted per (contract, transfer kind); R13.4 arms whose chain pulls from the caller never condition success on the attached coins beyond the collateral-coin lookup; R13.5 no reply of a chain whose attached native coins are untracked sizes an insurance top-up from the engine balance (known finding F10: whole-close reply); R13.6 every fee message of an Open/Close chain has a non-zero amount by a path fact (a zero bank send is rejected where a cw20 zero transfer is not; seed C13k). Not decided: equality of the two runs' outcomes as such; allowance/balance failure modes.",
         design="4/C13"),
     "C19": dict(
         technique="finite-domain abstract interpretation of the extracted MIR paths of every Integer operation over the complete sign x zero-ness x magnitude-order case space, compared with the mathematical table",
@@ -85,7 +85,7 @@ CLAIMED = {
         design="4/C02"),
     "C07": dict(
         technique="MIR cross-contract type agreement of every query edge (resolved generic arguments), chain-wide absence of gating facts, contradiction rule between the selection comparison and the partial reply's arithmetic, event-order rule for balance-sized top-ups, return-vs-queued agreement, non-zero-amount facts inherited down the call chain for every token-moving message of the liquidation replies",
-        note="Liveness is not statically decidable; decided are necessary conditions: R07.1 all 15 in-repo query edges deserialise the type the target serialises (known finding F1: vAMM<-pricefeed GetPrice); R07.2 Liquidate chain not gated by pause, restriction mode or sender identity; R07.3 magnitude-based full/partial selection vs fallible unsigned margin arithmetic in the partial reply (known finding F2); R07.4 no balance-sized insurance top-up after an unreported outgoing vault transfer (known findings F3 x2); R07.5 amount reported as incoming equals the queued Withdraw; R07.6 strict already-outside band test; R07.7 every token-moving message a liquidation reply can emit (bank send, cw20 transfer, insurance Withdraw) has an amount that is non-zero by a fact of the emitting path, because a zero transfer is rejected and reverts the Liquidate (found F12, fixed). Not decided: that the swap can be filled, arithmetic overflow, insurance solvency.",
+        note="Liveness is not statically decidable; decided are necessary conditions: R07.1 all 15 in-repo query edges deserialise the type the target serialises (known finding F1: vAMM<-pricefeed GetPrice); R07.2 Liquidate chain not gated by pause, restriction mode or sender identity; R07.3 magnitude-based full/partial selection vs fallible unsigned margin arithmetic in the partial reply (known finding F2); R07.4 no balance-sized insurance top-up after an unreported outgoing vault transfer (known findings F3 x2); R07.5 amount reported as incoming equals the queued Withdraw; R07.6 strict already-outside band test; R07.7 every token-moving message a liquidation reply can emit (bank send, cw20 transfer, insurance Withdraw) has an amount that is non-zero by a fact of the emitting path, because a zero transfer is rejected and reverts the Liquidate (found F12, fixed); R07.8 the Liquidate handler never reads an in-flight record before its first sub-message (availability must not depend on residue; seed C07l). Not decided: that the swap can be filled, arithmetic overflow, insurance solvency.",
         design="4/C07"),
     "C18": dict(
         technique="MIR writer census and pairing for reserve snapshots, stored-value flow for the price feed, and linear (telescoping) check of the TWAP weights on the bounded-unrolled prefix of the two averaging loops",
